@@ -498,6 +498,20 @@ func c09SecondLife(c *mon.Ctx, r *mon.Rand) {
 		opts.Reporter = pr
 	}
 	shards := uint(r.Range(0, 8))
+	// a third of the runs: a sanitizer rewrites the child's tag value, and every
+	// goroutine asks for it through another raw spelling (one shard, where all
+	// spellings of one identity share a scope)
+	withSan := r.Chance(1, 3)
+	if withSan {
+		so := tally.SanitizeOptions{
+			NameCharacters:       tally.ValidCharacters{Ranges: tally.AlphanumericRange, Characters: tally.UnderscoreDashDotCharacters},
+			KeyCharacters:        tally.ValidCharacters{Ranges: tally.AlphanumericRange, Characters: tally.UnderscoreCharacters},
+			ValueCharacters:      tally.ValidCharacters{Ranges: tally.AlphanumericRange, Characters: tally.UnderscoreCharacters},
+			ReplacementCharacter: '_',
+		}
+		opts.SanitizeOptions = &so
+		shards = 1
+	}
 	prof := mon.RandomProfile(r, []int{tally.VerifSubscopeUpgrade, tally.VerifReacquireBeforeReport, tally.VerifMetricProbeMissed}, r.Intn(3))
 	prof.Prob[tally.VerifSubscopeUpgrade] = r.Range(200, 900)
 	inj := mon.NewDelayInjector(r.U64(), prof, false)
@@ -505,10 +519,15 @@ func c09SecondLife(c *mon.Ctx, r *mon.Rand) {
 	defer inj.Uninstall()
 	root, _ := vNewRoot(opts, 0, shards)
 	G := r.Range(2, 8)
-	tagged := r.Bool()
-	desc := map[string]interface{}{"cached": cached, "shards": shards, "goroutines": G, "child_is_tagged": tagged}
+	tagged := r.Bool() || withSan
+	desc := map[string]interface{}{"cached": cached, "shards": shards, "goroutines": G, "child_is_tagged": tagged, "sanitizer_with_one_spelling_per_goroutine": withSan}
+	var spell uint64
 	bad := func(sig, why string) { c.Violation(sig, map[string]interface{}{"why": why, "case": desc}) }
 	get := func() tally.Scope {
+		if withSan {
+			n := atomic.AddUint64(&spell, 1)
+			return root.Tagged(map[string]string{"id": "ki" + []string{"_", ".", "-", ":", "/", "+", " "}[n%7] + "d"})
+		}
 		if tagged {
 			return root.Tagged(map[string]string{"id": "kid"})
 		}
@@ -582,6 +601,9 @@ func c09SecondLife(c *mon.Ctx, r *mon.Rand) {
 	kidKey := mon.IdentKey("kid.c", rootTags)
 	if tagged {
 		kidKey = mon.IdentKey("c", map[string]string{"rt": "x", "id": "kid"})
+	}
+	if withSan {
+		kidKey = mon.IdentKey("c", map[string]string{"rt": "x", "id": "ki_d"})
 	}
 	if got := agg[kidKey].Sum; got != want {
 		bad("lost-first-use-increment", fmt.Sprintf("child counter: delivered %#x, recorded %#x over %d close/re-request rounds", got, want, rounds))
